@@ -284,6 +284,30 @@ impl<'a> G<'a> {
                 self.labels.pop();
                 out.push(TNode::If { id, params: vec![], results: vec![], then_: a, else_: b });
             }
+            6 if self.multivalue && self.rng.chance(1, 3) => {
+                // block with a parameter and no result: (param i32)
+                let id = self.new_id();
+                self.expr(VT::I32, depth + 1, out);
+                self.labels.push(Lab { id, tys: vec![] });
+                let mut body = vec![TNode::Op(TOp::Drop)];
+                self.stmts(depth + 1, 2, &mut body);
+                self.labels.pop();
+                out.push(TNode::Block { id, params: vec![VT::I32], results: vec![], body });
+            }
+            7 if self.multivalue && self.rng.chance(1, 3) => {
+                // loop with a parameter and no result: the back edge carries the parameter
+                let id = self.new_id();
+                self.expr(VT::I64, depth + 1, out);
+                self.labels.push(Lab { id, tys: vec![VT::I64] });
+                let mut body = vec![TNode::Op(TOp::Drop)];
+                self.stmts(depth + 1, 2, &mut body);
+                self.expr(VT::I64, depth + 1, &mut body);
+                self.expr(VT::I32, depth + 1, &mut body);
+                body.push(TNode::Op(TOp::BrIf(id)));
+                body.push(TNode::Op(TOp::Drop));
+                self.labels.pop();
+                out.push(TNode::Loop { id, params: vec![VT::I64], results: vec![], body });
+            }
             6 => {
                 let id = self.new_id();
                 self.labels.push(Lab { id, tys: vec![] });
